@@ -4,13 +4,17 @@
 //! stdin (one scenario):
 //!   prog <scheme program on one line>
 //!   <tid> <site>        let logical thread <tid> run until it reaches yield site <site>, hold it there
+//!   <tid> go <site>     release it towards <site> without waiting (it will be held there)
+//!   <tid> at <site>     wait until it is held at <site>
 //!   <tid> free          let it run freely from now on
+//!   dispatch on|off     enable the yield point `vm.dispatch` (before every instruction of every thread)
 //!   int                 call `ThreadStateController::interrupt()` on the engine's controller (from the scheduler)
 //!   wait <ms>           let everything that is not held run for <ms>
 //!   end <bound_ms>      release every thread and wait for the evaluation to return (at most <bound_ms>)
 //! Logical thread 0 is the thread that calls `Engine::run`; a spawned thread becomes logical thread k by calling
-//! the host function `(c15-id! k)` first thing.  `(c15-mark!)` is a yield point of the script itself (site
-//! `mark`).  A thread with a logical id is HELD at the first yield point it meets until the schedule names it.
+//! the host function `(c15-id! k)` first thing; it is then held at its first `sp.exit.load` (published, before the exit
+//! check of a safepoint) until the schedule names it.  `(c15-mark!)` / `(c15-mark2!)` are yield points of the script itself
+//! (sites `mark`, `mark2`; a thread inside them is inside a primitive's safepoint, i.e. published).  A thread with a logical id is HELD at the first yield point it meets until the schedule names it.
 //! Yield sites: see /repo/crates/steel-core/src/steel_vm/verif.rs (sp.enter, sp.exit.load, sp.exit.state,
 //! sp.exit.park, sp.exit.retract, poll.state, poll.publish, poll.exit.load, poll.exit.park, poll.retract, stop.self,
 //! stop.thread, scan.spin, scan.begin, scan.end, resume.self, resume.thread, resume.unpark, env.drain, env.thunk,
@@ -95,11 +99,22 @@ fn on_yield(site: &'static str, _key: usize) {
 }
 
 fn set_id(k: usize) {
+    if k > 0 && k < NT {
+        // a spawned thread is first held at a point where it is published: before the exit check of a safepoint
+        let mut c = slots()[k].m.lock().unwrap();
+        if c.stop_at.as_deref() == Some("*") {
+            c.stop_at = Some("sp.exit.load".into());
+        }
+    }
     TID.with(|t| t.set(Some(k)));
 }
 
 fn mark() {
     on_yield("mark", 0);
+}
+
+fn mark2() {
+    on_yield("mark2", 0);
 }
 
 fn emit(line: &str) {
@@ -180,6 +195,7 @@ fn main() {
     let mut engine = Engine::new();
     engine.register_fn("c15-id!", set_id);
     engine.register_fn("c15-mark!", mark);
+    engine.register_fn("c15-mark2!", mark2);
     let controller = engine.get_thread_state_controller();
     verif::reset();
     let _ = slots();
@@ -190,10 +206,14 @@ fn main() {
     let sch = {
         let done = done.clone();
         std::thread::spawn(move || {
-            let step_to = Duration::from_millis(3000);
+            let step_to = Duration::from_millis(6000);
             for l in sched {
                 let f: Vec<&str> = l.split_whitespace().collect();
                 match f.as_slice() {
+                    ["dispatch", v] => {
+                        verif::DISPATCH_YIELD.store(*v == "on", Ordering::SeqCst);
+                        emit(&format!("ok dispatch {v}"));
+                    }
                     ["int"] => {
                         controller.interrupt();
                         emit("ok int");
@@ -216,6 +236,44 @@ fn main() {
                             std::thread::sleep(Duration::from_millis(2));
                         }
                         return;
+                    }
+                    [tid, "go", site] => {
+                        let t: usize = tid.parse().unwrap_or(0);
+                        let s = &slots()[t];
+                        let mut c = s.m.lock().unwrap();
+                        if c.held.as_deref() != Some(*site) {
+                            c.stop_at = Some(site.to_string());
+                            c.go = true;
+                            c.held = None;
+                            s.cv.notify_all();
+                        }
+                        drop(c);
+                        emit(&format!("ok {tid} go {site}"));
+                    }
+                    [tid, "at", site] => {
+                        let t: usize = tid.parse().unwrap_or(0);
+                        let s = &slots()[t];
+                        let mut c = s.m.lock().unwrap();
+                        let t0 = Instant::now();
+                        let mut okk = false;
+                        loop {
+                            if c.held.as_deref() == Some(*site) {
+                                okk = true;
+                                break;
+                            }
+                            if t0.elapsed() > step_to {
+                                break;
+                            }
+                            let (g, _) = s.cv.wait_timeout(c, Duration::from_millis(20)).unwrap();
+                            c = g;
+                        }
+                        let h = c.held.clone().unwrap_or_else(|| "-".into());
+                        drop(c);
+                        if okk {
+                            emit(&format!("ok {tid} at {site}"));
+                        } else {
+                            emit(&format!("timeout {tid} at {site} last={h}"));
+                        }
                     }
                     [tid, "free"] => {
                         free(tid.parse().unwrap_or(0));
